@@ -27,9 +27,13 @@ def main():
         for sid in ids:
             prop = sid[:3]
             patch = os.path.join(VERIF, "seeded", sid, "patch.diff")
-            sh("git checkout -q -- . && git clean -fdq", cwd=WT)
-            rc, out = sh("git apply %s || git apply --3way %s" % (patch, patch), cwd=WT)
+            sh("git reset -q --hard HEAD && git clean -fdq", cwd=WT)
+            rc, out = sh("git apply %s" % patch, cwd=WT)
             if rc != 0:
+                sh("git reset -q --hard HEAD && git clean -fdq", cwd=WT)
+                rc, out = sh("git apply --3way %s" % patch, cwd=WT)
+            if rc != 0:
+                sh("git reset -q --hard HEAD && git clean -fdq", cwd=WT)
                 res[sid] = dict(status="patch does not apply to HEAD any more", detail=out[-600:])
                 print(sid, res[sid]["status"], flush=True)
                 continue
